@@ -27,6 +27,8 @@ pub struct DevOp {
 pub enum FaultKind {
     /// hard error (ErrorKind::Other)
     Hard,
+    /// hard error of another kind (index into a list of kinds; never Interrupted)
+    Kind(u8),
     /// ErrorKind::Interrupted - callers using write_all/read_exact must retry
     Interrupted,
 }
@@ -95,6 +97,19 @@ impl MemDev {
                 s.fault_fired = true;
                 return Err(match fk {
                     FaultKind::Hard => Error::new(ErrorKind::Other, format!("injected device fault at operation {n} ({kind:?})")),
+                    FaultKind::Kind(k) => {
+                        const KINDS: [ErrorKind; 8] = [
+                            ErrorKind::InvalidInput,
+                            ErrorKind::InvalidData,
+                            ErrorKind::UnexpectedEof,
+                            ErrorKind::PermissionDenied,
+                            ErrorKind::BrokenPipe,
+                            ErrorKind::TimedOut,
+                            ErrorKind::NotFound,
+                            ErrorKind::WriteZero,
+                        ];
+                        Error::new(KINDS[k as usize % KINDS.len()], format!("injected device fault at operation {n} ({kind:?})"))
+                    }
                     FaultKind::Interrupted => Error::new(ErrorKind::Interrupted, "injected EINTR"),
                 });
             }
